@@ -15,8 +15,18 @@ E4  seeded random + PCT schedules of random programs on the manual queue and Imm
     of the futures' words must stay equal to the spec after every step), validated the same way.
     thorough: the same on an ASan/UBSan build without the small-buffer allocator (auxiliary monitor for reference-count
     errors: a sanitizer report = driver crash = reported).
+E5  free-running rounds (real threads, no controller): a kNotDeferred or deferred future is queued on a one-worker
+    ThreadPool / TaskSet / ConcurrentTaskSet and its owner's get() / wait() (sometimes also a second thread's get() on a
+    copy) is aligned with the moment the worker pops the queued task, so that the waiter's claim and the pool task's claim
+    overlap INSIDE one step of the controlled scheduler (a claim that is not one atomic RMW is invisible to E2-E4).  One
+    record per batch: functors executed twice / never, get() values that differ from the functor's value, functor copies
+    and shared states still alive, task-set counters; validated by TLC (FutureRaceObs.tla).
 """
+import json
+import os
 import random
+
+import vlib
 
 import future_common as fc
 
@@ -53,4 +63,26 @@ def run(ctx):
                             'sanitised build, manual queue', n=6, seed=ctx.seed + 2, pct=3, fixed=fixed)
         fc.run_and_validate(ctx, san, [fc.gen.random_program(rng2, 'pool') for _ in range(100)], WHAT,
                             'sanitised build, real pool', n=5, seed=ctx.seed + 3, pct=3, fixed=fixed)
+    # E5: the owner's get() / wait() races the pool task for the claim, free-running --------------
+    # (why: every engine above executes the claim kNotStarted -> kRunning as ONE step; a waiter landing between a load and
+    # a store of a non-atomic claim exists only in truly concurrent executions)
+    rounds = 600000 if thorough else 40000
+    obs = os.path.join(ctx.work, 'race.ndjson')
+    tot, _ = ctx.driver(exe, ['--out', obs, '--race', rounds, '--batch', 4000, '--seed', ctx.seed], WHAT,
+                        label='free-running: get / wait racing the pool task', allow_incomplete=True, timeout=900)
+    ctx.validate(fc.SPEC, 'FutureRaceObs.tla', 'FutureRaceObs.cfg', obs,
+                 WHAT + ' (free-running waiter vs pool task: executions, values, releases)',
+                 executions=tot.get('completed', 0), label='E5 race records')
+    fc.cleanup()
+    recs = [json.loads(x) for x in open(obs) if x.strip()]
+    nd, inlnd = sum(r['nd'] for r in recs), sum(r['inlnd'] for r in recs)
+    ctx.cov['free_running_rounds'] = sum(r['rounds'] for r in recs)
+    ctx.cov['free_running_race'] = {'not_deferred_rounds': nd, 'claimed_by_a_getter': inlnd, 'claimed_by_the_pool': nd - inlnd}
+    ctx.sample_trace(obs, 3)
+    if recs and not any(r['stuck'] for r in recs) and (inlnd == 0 or inlnd == nd):
+        # not a verdict about the library: the two claims never met, the engine observed nothing
+        raise vlib.ToolError('E5 race rounds are vacuous: %d kNotDeferred rounds, %d claimed by a getter' % (nd, inlnd))
     ctx.assumptions += fc.ASSUME
+    ctx.assumptions.append('E5 observes, per batch of free-running rounds on the real pool with real threads, only what the '
+                           'callers of the public API see (execution counts of their functors, values returned by get(), '
+                           'objects still alive, task-set counters); no wall-clock judgement')
